@@ -40,7 +40,18 @@ EXPLANATION = (
     "hash, the UEB hash entries are stored unconditionally and none of it depends on self.landlords / self.servermap; (13) "
     "what is stored is what was hashed: the (share, block) pair sent in that loop is the pair hashed and one (data, number) "
     "pair of the codec result, under the segment number of the round, a round skips the send only for a share without a "
-    "bucket writer, and send_block hands (segment number, block) to the writer of that share on every path on which it has one.  "
+    "bucket writer, and send_block hands (segment number, block) to the writer of that share on every path on which it has one; "
+    "(14) the uploadable is read front to back: get_size() and every other method of the FileHandle family that moves the file "
+    "handle leaves it at offset 0 and read(length) reads length bytes where the handle stands (rule C05.7 adopted as C01.12.7), "
+    "and whatever EncryptAnUploadable.read_encrypted() runs for every segment (followed through self methods, the wrapped "
+    "IUploadable's methods, closures, lambdas and method values handed on) reaches a call that repositions that handle - other "
+    "than the data read itself - only behind a once-only guard: a test that a memo attribute is None / false, where the attribute "
+    "is stored with a value on every path behind the test (directly or by a callback that path registers) and is never cleared "
+    "outside __init__; (15) CRSDecoder.decode returns nothing but what zfec made of the blocks and share numbers, handed over "
+    "pairwise in the caller's order after both length checks (rule C36.3 adopted as C01.15.3): the blocks arrive in the order the "
+    "servers answered and only zfec puts the pieces in share-number order; (16) DownloadNode._decode_blocks returns nothing but the "
+    "Deferred of that decode call, and its first callback joins the pieces with b'' in the order received and hands on (a slice "
+    "of) that join.  "
     "Undecided: the arithmetic identities themselves (sum of block sizes == share size), zfec, AES, hash trees; that the "
     "spans a stage fetches are the spans _desire_* requested (a mismatch stalls every download); the value-level guards "
     "(2**32 / 2**64 layout-version limits, the segnum >= num_segments BADSEGNUM boundary - SegmentFetcher re-checks it -, "
@@ -50,7 +61,8 @@ EXPLANATION = (
     "handling, DataSpans semantics).")
 TECHNIQUE = ("static analysis: symbolic normal forms of size formulas compared under a symbol map, struct-format "
              "folding of the share header, CFG gate rules for pad/trim, typestate exploration of CommonShare creation, "
-             "of absent-data edges and of the satisfaction round (stage results, request retirement) in the downloader")
+             "of absent-data edges and of the satisfaction round (stage results, request retirement) in the downloader, "
+             "inter-procedural reachability x memo-guard typestate for calls that move the uploadable's file handle")
 
 ENC = "immutable.encode:Encoder"
 NODE = "immutable.downloader.node:DownloadNode"
@@ -2399,6 +2411,482 @@ def run_sent_is_hashed(ctx, r):
                         % w.brief(), w)
 
 
+# ============================================ C01.14 the data reads of one upload are sequential
+EAU = "immutable.upload:EncryptAnUploadable"
+UPLOADABLE_IFACE = "IUploadable"
+DATA_READ = "read"                 # IUploadable.read(length): the data read itself
+# calls that leave a file object at another position than before
+HANDLE_MOVERS = {"seek", "read", "read1", "readline", "readlines", "readinto", "write", "writelines", "truncate"}
+HANDLE_INSPECTORS = {"isinstance", "hasattr", "id", "type", "repr", "str", "callable"}
+_ABSENT_PATH = re.compile(r"^self\.\w+$")
+
+
+def _infeasible_edge(n, lab):
+    return n.kind == "test" and isinstance(lab, tuple) and isinstance(n.ast, ast.Constant) \
+        and bool(n.ast.value) != (lab[0] == "T")
+
+
+def _descendant_funcs(fn):
+    out = []
+    for g in fn.nested.values():
+        out.append(g)
+        out.extend(_descendant_funcs(g))
+    return out
+
+
+def _uploadable_family(idx):
+    """Classes declared @implementer(IUploadable) and their subclasses."""
+    roots = []
+    for ci in idx.classes.values():
+        for d in ci.node.decorator_list:
+            if isinstance(d, ast.Call) and call_tail(d) == "implementer" and any(
+                    (attr_path(a) or "").split(".")[-1] == UPLOADABLE_IFACE for a in d.args):
+                roots.append(ci)
+    if not roots:
+        raise AnchorVanished("no class is declared @implementer(%s)" % UPLOADABLE_IFACE)
+    fam = []
+    for ci in roots:
+        for c in [ci] + list(idx.subclasses(ci)):
+            if c not in fam:
+                fam.append(c)
+    return fam
+
+
+def _absent_attr(fact):
+    """'self.x' when the canonical edge fact says that attribute is None / false, else None."""
+    if not fact:
+        return None
+    op, l, r = fact
+    a = None
+    if op == "false":
+        a = l
+    elif op in ("is", "==") and "None" in (l, r):
+        a = r if l == "None" else l
+    return a if isinstance(a, str) and _ABSENT_PATH.match(a) else None
+
+
+class _Memo:
+    """Is `if self.a is None / not self.a` in f a once-only guard?  It is when whatever runs behind it stores a value in
+    self.a before f (or the callback f registers) is done, and nothing else puts None back."""
+
+    def __init__(self, idx):
+        self.idx = idx
+        self.cache = {}
+        self.rejected = {}          # (function qual, attribute) -> why the test does not count
+
+    @staticmethod
+    def _sets(n, a):
+        if a not in node_stores(n) or n.kind != "stmt" or not isinstance(n.ast, (ast.Assign, ast.AnnAssign)):
+            return False
+        v = assign_value(n, a)
+        return not (isinstance(v, ast.Constant) and not v.value)
+
+    def _escapes_unset(self, cfg, start, is_set):
+        """A normal path from `start` to the exit of the function on which no node of is_set runs."""
+        if is_set(start):
+            return False
+
+        def tr(n, lab, nxt, st):
+            if lab == "exc" or _infeasible_edge(n, lab) or is_set(nxt):
+                return None
+            return 0
+        visited, _p = explore(cfg, 0, tr, start=start)
+        return any(cfg.nodes[i].kind == "exit" for (i, _s) in visited)
+
+    def _is_set_pred(self, f, a, depth, busy):
+        """Predicate on the CFG nodes of f: the node stores self.a, or mentions a closure of f / a method of f's class that
+        stores it on every path (the memo is written by a callback or a helper)."""
+        memo_ = {}
+
+        def sets_always(g):
+            if g.qual not in memo_:
+                memo_[g.qual] = depth < 3 and g.qual not in busy and not isinstance(g.node, ast.Lambda) \
+                    and self.always_sets(g, a, depth + 1, busy | {f.qual})
+            return memo_[g.qual]
+
+        def is_set(n):
+            if self._sets(n, a):
+                return True
+            if n.kind in ("entry", "exit", "raise"):
+                return False
+            for e in node_exprs(n):
+                for x in own_nodes(e, into_lambda=True):
+                    if isinstance(x, ast.Name) and isinstance(x.ctx, ast.Load) and x.id in f.nested:
+                        if sets_always(f.nested[x.id]):
+                            return True
+                    elif isinstance(x, ast.Attribute) and isinstance(x.ctx, ast.Load) and f.cls is not None:
+                        p = attr_path(x)
+                        if p and p.startswith("self.") and p.count(".") == 1:
+                            m = f.cls.lookup(x.attr)
+                            if m is not None and m is not f and sets_always(m):
+                                return True
+            return False
+        return is_set
+
+    def always_sets(self, g, a, depth=0, busy=frozenset()):
+        cfg = g.cfg()
+        return not self._escapes_unset(cfg, cfg.entry, self._is_set_pred(g, a, depth, busy))
+
+    def valid(self, f, a, target):
+        """`target`: the CFG node of f reached by the edge on which self.a is absent."""
+        key = (f.qual, a, target.id)
+        if key in self.cache:
+            return self.cache[key]
+        cfg = f.cfg()
+        is_set = self._is_set_pred(f, a, 0, frozenset())
+        why = None
+        if self._escapes_unset(cfg, target, is_set):
+            why = "%s is not stored on every path behind the test in %s" % (a, short(f))
+        else:
+            classes = []
+            if f.cls is not None:
+                classes = list(f.cls.mro()) + list(self.idx.subclasses(f.cls))
+            for ci in classes:
+                for m in ci.methods.values():
+                    if m.name == "__init__":
+                        continue
+                    for g in [m] + _descendant_funcs(m):
+                        for n in g.cfg().nodes:
+                            if a in node_stores(n) and n.kind == "stmt" and (
+                                    isinstance(n.ast, ast.Delete) or (isinstance(n.ast, (ast.Assign, ast.AnnAssign))
+                                                                      and not self._sets(n, a))):
+                                why = "%s is cleared again in %s" % (a, short(g))
+        if why:
+            self.rejected[(f.qual, a)] = why
+        self.cache[key] = why is None
+        return why is None
+
+
+def run_sequential_reads(ctx, r):
+    """EncryptAnUploadable.read_encrypted() runs once per segment and ends in original.read(): the uploadable delivers
+    the file front to back only if nothing else that call runs repositions the uploadable's file handle.  Everything
+    on the way that does (measuring the size by seeking to the end, hashing the file for the convergent key) has to sit
+    behind a once-only guard - a test of a memo attribute that is absent only the first time."""
+    idx = ctx.idx
+    root = idx.func(EAU + ".read_encrypted")
+    eau = root.cls
+    family = _uploadable_family(idx)
+    fam_all = []
+    for ci in family:
+        for c in ci.mro():
+            if c not in fam_all:
+                fam_all.append(c)
+    # the attributes of EncryptAnUploadable that hold the wrapped uploadable
+    init = eau.lookup("__init__")
+    if init is None:
+        raise AnchorVanished("EncryptAnUploadable.__init__")
+    iparams = set(init.params)
+    wrapped = set()
+    for n in init.cfg().nodes:
+        if n.kind == "stmt" and isinstance(n.ast, ast.Assign):
+            v = n.ast.value
+            if (isinstance(v, ast.Call) and call_tail(v) == UPLOADABLE_IFACE) or (isinstance(v, ast.Name) and v.id in iparams
+                                                                                  and v.id != "self"):
+                wrapped.update(p for p in node_stores(n) if _ABSENT_PATH.match(p))
+    # the file handle: what the data read of the family reads from
+    readers = []
+    for ci in family:
+        m = ci.lookup(DATA_READ)
+        if m is not None and m not in readers:
+            readers.append(m)
+    handles = set()
+    for m in readers:
+        fm = FlowNorm(m)
+        for n in m.cfg().nodes:
+            for c in node_calls(n):
+                if call_tail(c) in ("read", "read1", "readinto") and isinstance(c.func, ast.Attribute):
+                    p = fm.norm(n, c.func.value)
+                    if _ABSENT_PATH.match(p or ""):
+                        handles.add(p)
+    if not readers or not handles:
+        raise AnchorVanished("no %s.%s() reads from a file handle attribute" % (UPLOADABLE_IFACE, DATA_READ))
+
+    memo = _Memo(idx)
+    fnorms = {}
+
+    def fnorm_of(f):
+        if f.qual not in fnorms:
+            fnorms[f.qual] = FlowNorm(f)
+        return fnorms[f.qual]
+
+    def is_handle(f, n, e):
+        try:
+            p = fnorm_of(f).norm(n, e)
+        except Exception:
+            p = None
+        if p in handles:
+            return True
+        if isinstance(e, ast.Name):               # closure variable bound to the handle in an enclosing function
+            g = f.parent
+            while g is not None:
+                ds = def_exprs(g).get(e.id)
+                if ds:
+                    return all(attr_path(d) in handles for d in ds)
+                g = g.parent
+        return False
+
+    def moving_ops(f, n):
+        if f.cls is None or f.cls not in fam_all:
+            return []
+        out = []
+        for c in node_calls(n):
+            t = call_tail(c)
+            if isinstance(c.func, ast.Attribute) and t in HANDLE_MOVERS and is_handle(f, n, c.func.value):
+                if not (f in readers and t in ("read", "read1", "readinto")):
+                    out.append((c, "%s()" % t))
+            elif t not in HANDLE_INSPECTORS:
+                for a in list(c.args) + [k.value for k in c.keywords]:
+                    if is_handle(f, n, a.value if isinstance(a, ast.Starred) else a):
+                        out.append((c, "the handle is given to %s()" % (call_name(c) or t)))
+        return out
+
+    def callees(f, n):
+        """Functions that run because of what node n of f mentions (a call, a method / closure handed on as a value)."""
+        out = []
+        for e in node_exprs(n):
+            for x in own_nodes(e):
+                g = None
+                if isinstance(x, ast.Lambda):
+                    out.append(idx.lambda_func(f, x))
+                    continue
+                if isinstance(x, ast.Name) and isinstance(x.ctx, ast.Load):
+                    h = f
+                    while h is not None and g is None:
+                        g = h.nested.get(x.id)
+                        h = h.parent
+                    if g is not None:
+                        out.append(g)
+                    continue
+                if not isinstance(x, ast.Attribute) or not isinstance(x.ctx, ast.Load):
+                    continue
+                p = attr_path(x)
+                if not p:
+                    continue
+                if p.startswith("self.") and p.count(".") == 1 and f.cls is not None:
+                    if f.cls in fam_all:
+                        out.extend(m for m in (ci.lookup(x.attr) for ci in family if f.cls in ci.mro()) if m is not None)
+                    else:
+                        m = f.cls.lookup(x.attr)
+                        if m is not None:
+                            out.append(m)
+                elif p.rsplit(".", 1)[0] in wrapped and f.cls is eau:
+                    out.extend(m for m in (ci.lookup(x.attr) for ci in family) if m is not None)
+                else:
+                    try:
+                        g = idx.resolve_expr(f.module, x)
+                    except Exception:
+                        g = None
+                    if isinstance(g, FuncInfo) and g.cls is not None and (g.cls in fam_all or g.cls is eau):
+                        out.append(g)          # Base.method(self, ..)
+        uniq = []
+        for g in out:
+            if g not in uniq:
+                uniq.append(g)
+        return uniq
+
+    UNGUARDED = ""
+    seen = {}                 # (function qual, guard) -> (caller key or None)
+    work = [(root, UNGUARDED, None)]
+    ops = {}                  # id(call) -> [function, call, what, {guards}, key of an unguarded visit]
+    read_reached = False
+    while work:
+        f, g0, via = work.pop()
+        key = (f.qual, g0)
+        if key in seen:
+            continue
+        seen[key] = via
+        cfg = f.cfg()
+        fm = fnorm_of(f)
+
+        def tr(n, lab, nxt, st, f=f, cfg=cfg, fm=fm):
+            if lab == "exc" or _infeasible_edge(n, lab):
+                return None
+            if st == UNGUARDED and n.kind == "test" and isinstance(lab, tuple):
+                a = _absent_attr(fm.edge_fact(n, lab))
+                if a is not None and memo.valid(f, a, nxt):
+                    return "%s in %s" % (a, short(f))
+            return st
+        visited, _parent = explore(cfg, g0, tr)
+        r.count(len(visited))
+        for (nid, st) in sorted(visited):
+            n = cfg.nodes[nid]
+            if n.kind in ("entry", "exit", "raise"):
+                continue
+            for (c, what) in moving_ops(f, n):
+                rec = ops.setdefault(id(c), [f, c, what, set(), None])
+                rec[3].add(st)
+                if st == UNGUARDED and rec[4] is None:
+                    rec[4] = key
+            for g in callees(f, n):
+                if g in readers:
+                    read_reached = True
+                work.append((g, st, key))
+    if not read_reached:
+        raise AnchorVanished("EncryptAnUploadable.read_encrypted no longer reaches the uploadable's %s()" % DATA_READ)
+    r.site(root, None, "per-segment entry; data read: %s; file handle: %s" % (
+        ", ".join(short(m) for m in readers), ", ".join(sorted(handles))))
+
+    def chain(key):
+        out = []
+        while key is not None:
+            out.append(key[0].split(":", 1)[1])
+            key = seen.get(key)
+        return " <- ".join(out)
+    by_fn = {}
+    for rec in ops.values():
+        by_fn.setdefault(rec[0].qual, []).append(rec)
+    for q in sorted(by_fn):
+        recs = sorted(by_fn[q], key=lambda x: (x[1].lineno, x[1].col_offset))
+        f = recs[0][0]
+        guards = sorted(set().union(*[x[3] for x in recs]) - {UNGUARDED})
+        r.site(f, recs[0][1], "moves the file handle (%s); reached per segment only behind: %s" % (
+            ", ".join(sorted({x[2] for x in recs})), "; ".join(guards) or "-"))
+        bad = [x for x in recs if x[4] is not None]
+        if bad:
+            x = bad[0]
+            on_chain, k_ = set(), x[4]
+            while k_ is not None:
+                on_chain.add(k_[0])
+                k_ = seen.get(k_)
+            notes = sorted({why for (fq, _a), why in memo.rejected.items() if fq in on_chain})
+            r.violation(f, f.loc(x[1]), "%s repositions the uploadable's file handle (%s) and is reached from every "
+                        "read_encrypted() call without passing a once-only guard (call chain: %s): each segment after the "
+                        "first is then read from the wrong offset, the upload succeeds and the file reads back with wrong "
+                        "bytes%s" % (short(f), ", ".join(src(f, y[1]) for y in bad), chain(x[4]),
+                                     ("; tests that do not count as a guard: " + "; ".join(notes)) if notes else ""))
+
+
+# ================================ C01.16 the segment is the decoder's output, joined in the decoder's order
+def _order_kept(e, name):
+    """e is `name`, list(name) / tuple(name) or [x for x in name]: the same items in the same order."""
+    if isinstance(e, ast.Name):
+        return e.id == name
+    if isinstance(e, ast.Call) and isinstance(e.func, ast.Name) and e.func.id in ("list", "tuple") and len(e.args) == 1 \
+            and not e.keywords:
+        return _order_kept(e.args[0], name)
+    if isinstance(e, (ast.ListComp, ast.GeneratorExp)) and len(e.generators) == 1:
+        g = e.generators[0]
+        return not g.ifs and isinstance(g.target, ast.Name) and isinstance(e.elt, ast.Name) and e.elt.id == g.target.id \
+            and _order_kept(g.iter, name)
+    return False
+
+
+def run_decoded_join(ctx, r):
+    """The blocks arrive in the order the servers answered; only the codec knows how to turn them into the k input
+    pieces in share-number order.  So whatever DownloadNode._decode_blocks hands on must be the codec's result, joined
+    piece by piece in the order the codec returned them."""
+    idx = ctx.idx
+    db = idx.func(NODE + "._decode_blocks")
+    cfg = db.cfg()
+    fn_ = FlowNorm(db)
+    dc = the_call(db, "decode")
+    dn = node_of(db, dc)
+    r.site(db, dc, "every result of _decode_blocks is the codec's Deferred")
+    dvars = [t.id for t in (dn.ast.targets if dn.kind == "stmt" and isinstance(dn.ast, ast.Assign) and dn.ast.value is dc
+                            else []) if isinstance(t, ast.Name)]
+
+    def unchained(v):
+        while isinstance(v, ast.Call) and isinstance(v.func, ast.Attribute) and v.func.attr in ("addCallback", "addBoth",
+                                                                                                "addCallbacks", "addErrback"):
+            v = v.func.value
+        return v
+    rets = cfg.find(is_return)
+    if not rets:
+        raise AnchorVanished("_decode_blocks returns nothing")
+    for q in rets:
+        v = unchained(q.ast.value) if q.ast.value is not None else None
+        ok = v is dc
+        if not ok and isinstance(v, ast.Name) and v.id in dvars:
+            ds = fn_.rd.get(q.id, {}).get(v.id, frozenset())
+            ok = ds == frozenset([dn.id])
+        r.require(ok, db, db.loc(q.ast), "_decode_blocks can return %s, which is not the result of %s: the blocks are in the "
+                  "order the servers answered, and only the codec puts the pieces of the segment in share-number order" % (
+                      src(db, q.ast.value) if q.ast.value is not None else "None", src(db, dc)))
+    # the callback that turns the codec's pieces into the segment: the first one registered on that Deferred
+    regs = []
+    for v in dvars:
+        regs.extend(registrations(db, v))
+    if not dvars:
+        regs = [g for g in registrations(db) if any(x is dc for x in ast.walk(g.call))]
+    regs = [g for g in regs if g.kind in ("cb", "both", "pair")]
+    regs.sort(key=lambda g: (g.call.lineno, g.call.col_offset))
+    if not regs:
+        raise AnchorVanished("_decode_blocks registers no callback on the Deferred of %s" % src(db, dc))
+    t = regs[0].target
+    pr = None
+    if isinstance(t, ast.Name):
+        pr = db.nested.get(t.id)
+    elif isinstance(t, ast.Lambda):
+        pr = idx.lambda_func(db, t)
+    elif isinstance(t, ast.Attribute) and (attr_path(t) or "").startswith("self.") and db.cls is not None:
+        pr = db.cls.lookup(t.attr)
+    if pr is None:
+        raise AnchorVanished("_decode_blocks: cannot resolve the first callback (%s) of the decode Deferred" % regs[0].target_name())
+    pp = [p for p in pr.params if p != "self"]
+    if not pp:
+        raise AnchorVanished("%s takes no result parameter" % short(pr))
+    pcfg = pr.cfg()
+    pn = FlowNorm(pr)
+    joins = [(n, c) for n in pcfg.nodes for c in node_calls(n) if call_tail(c) == "join"]
+    if len(joins) != 1:
+        raise AnchorVanished("%s: expected exactly one join of the decoded pieces, found %d" % (short(pr), len(joins)))
+    jn, jc = joins[0]
+    r.site(pr, jc, "segment = join of the codec's pieces, in the codec's order")
+    sep = jc.func.value if isinstance(jc.func, ast.Attribute) else None
+    a0 = jc.args[0] if len(jc.args) == 1 and not jc.keywords else None
+    at = jn
+    for _hop in range(4):                      # a temporary holding the pieces
+        if not (isinstance(a0, ast.Name) and a0.id != pp[0]):
+            break
+        ds = pn.rd.get(at.id, {}).get(a0.id, frozenset())
+        if len(ds) != 1 or C.PARAM_DEF in ds:
+            break
+        at = pcfg.nodes[next(iter(ds))]
+        v = pn._def_value(at, a0.id)
+        if v is None:
+            break
+        a0 = v
+    r.require(isinstance(sep, ast.Constant) and sep.value == b"" and a0 is not None and _order_kept(a0, pp[0]), pr, pr.loc(jc),
+              "the segment is built as %s, not as b''.join(%s): the decoded pieces are not concatenated as the codec "
+              "returned them" % (src(pr, jc), pp[0]))
+    # ... and that join is the segment handed on
+    jt = [x.id for x in (jn.ast.targets if jn.kind == "stmt" and isinstance(jn.ast, ast.Assign) else []) if isinstance(x, ast.Name)]
+    prets = pcfg.find(is_return)
+    if not prets:
+        raise AnchorVanished("%s returns nothing" % short(pr))
+    for q in prets:
+        v = _returned_ast(pcfg, pn.rd, q)
+        first = v.elts[0] if isinstance(v, ast.Tuple) and v.elts else v
+        ok = first is jc or any(x is jc for x in ast.walk(first)) if first is not None else False
+        if not ok and isinstance(first, ast.Name):
+            # every definition of the returned name is the join, a copy of it, or a slice of such a value (the tail trim)
+            seen_d, ok = set(), True
+            todo = [(first.id, d) for d in pn.rd.get(q.id, {}).get(first.id, frozenset())]
+            while todo and ok:
+                nm, d = todo.pop()
+                if (nm, d) in seen_d:
+                    continue
+                seen_d.add((nm, d))
+                if d == C.PARAM_DEF or d < 0:
+                    ok = False
+                    break
+                n2 = pcfg.nodes[d]
+                if n2 is jn and nm in jt:
+                    continue
+                val = pn._def_value(n2, nm)
+                if val is jc:
+                    continue
+                if isinstance(val, ast.Subscript) and isinstance(val.slice, ast.Slice):
+                    val = val.value
+                if isinstance(val, ast.Name):
+                    todo.extend((val.id, d2) for d2 in pn.rd.get(n2.id, {}).get(val.id, frozenset()))
+                    continue
+                ok = False
+            ok = ok and bool(seen_d)
+        r.require(ok, pr, pr.loc(q.ast), "%s returns %s as the segment, which is not (a slice of) %s" % (
+            short(pr), src(pr, first) if first is not None else "None", src(pr, jc)))
+
+
 # ====================================================================== driver
 def run(ctx: Context):
     idx = ctx.idx
@@ -2459,9 +2947,27 @@ def run(ctx: Context):
         run_authoritative_tables(ctx, r)
 
     # C01.12.8: the hashes the cap commits to are computed for all N shares, whoever receives them (rule shared with C05)
-    ctx.include("C05", ["C05.8"], "C01.12")
+    # C01.12.7: the data reads start at offset 0 - get_size() and everything else that moves the uploadable's file handle
+    # before the first read() leaves it rewound, and read(length) reads sequentially (rule shared with C05; C01.14 is the
+    # other half: nothing moves the handle again between the reads)
+    ctx.include("C05", ["C05.8", "C05.7"], "C01.12")
 
     with ctx.rule("C01.13", "R2/R6", "Encoder._send_segment sends, for every share that has a bucket writer, the very (share, "
                   "block) pair it hashes, under the segment number of the round; send_block hands (segment number, block) to "
                   "the writer of that share on every path on which the share has one", expected=3) as r:
         run_sent_is_hashed(ctx, r)
+
+    with ctx.rule("C01.14", "R2/R7", "the data reads of one upload are sequential: whatever EncryptAnUploadable.read_encrypted() "
+                  "runs for every segment besides the uploadable's read() repositions the uploadable's file handle only behind "
+                  "a once-only guard (a memo attribute tested absent, stored behind the test and never cleared)",
+                  expected=3) as r:
+        run_sequential_reads(ctx, r)
+
+    # C01.15.3: CRSDecoder.decode returns what zfec made of the blocks and share numbers, handed over pairwise in the
+    # caller's order (rule shared with C36): zfec, not the order of arrival, decides which piece of the segment is which
+    ctx.include("C36", ["C36.3"], "C01.15")
+
+    with ctx.rule("C01.16", "R1/R6", "DownloadNode._decode_blocks returns nothing but the Deferred of codec.decode(blocks, "
+                  "share numbers), and the first callback on it joins the decoded pieces in the order the codec returned "
+                  "them and hands on (a slice of) that join", expected=2) as r:
+        run_decoded_join(ctx, r)
